@@ -157,13 +157,20 @@ def part2(ctx, r):
     sig = 'S' * nsw
     stmt = 'ins_900(%s);' % ', '.join(render_switch(c) for c in switches)
     if label is not None: stmt = '{"%s"}: %s' % (label, stmt)
+    # an enclosing labelled block: the statement's own label (if it has one) replaces the block's, otherwise the block's applies
+    outer = None
+    if r.chance(0.3):
+        outer = r.pick(['*', ''.join(r.sample(chars, r.randint(1, len(chars))))])
+        stmt = '{"%s"}: {\n%s\n}' % (outer, stmt)
+        if label is None: label = outer
+        ctx.count('nested_label_cases')
     text = 'script timeline0 {}\nvoid sub0() {\n%s\n}\n' % stmt
     mp = ctx.write('c14.map', flagset_text(defs) + '!ins_signatures\n900 %s\n' % sig)
     src = ctx.write('c14.txt', text); out = os.path.join(ctx.dir, 'c14.bin')
     if os.path.exists(out): os.unlink(out)
     c = ctx.cli({'tool': 'ecl', 'cmd': 'compile', 'game': 'th07', 'in': src, 'out': out, 'maps': [mp]})
     ctx.evaluations += 1
-    replay = {'text': text, 'mapfile': flagset_text(defs), 'label': label, 'switches': switches}
+    replay = {'text': text, 'mapfile': flagset_text(defs), 'label': label, 'outer_label': outer, 'switches': switches}
     if 'panic' in c or 'abort' in c: ctx.inconcl('compile crash (C04)'); return
     if not c.get('ok'):
         ctx.violation('diff:expansion:rejects-valid:%s' % core.norm_msg(core.headline(c.get('diag', '')))[:50], c.get('diag', '')[:300], replay); return
